@@ -4,7 +4,7 @@ FullBelow = 16
 OaepKHs <- QuickOaepKHs
 DbKHs <- None
 ShortKHs <- SmallShortKHs
-Rt15Ks = {12, 13, 16, 24}
+Rt15Ks = {11, 12, 13, 16, 24, 33}
 RtOaepKHs <- SmallRtOaepKHs
 RtAll = TRUE
 Emit = TRUE
